@@ -4,6 +4,7 @@ import OpenFecVerif.Gen.Blocking
 import OpenFecVerif.Gen.Popcount
 import OpenFecVerif.Model.Api
 import OpenFecVerif.Model.Kernels
+import OpenFecVerif.Model.Dense
 /-!
 `ofmodel`: line-protocol driver over the executable models (Appendix B of DESIGN.md).
 One output line per input line.  Evaluates models; proves nothing.
@@ -11,6 +12,8 @@ One output line per input line.  Evaluates models; proves nothing.
 structure DrvState where
   seed : Nat := 1
   world : Api.World Bytes := {}
+  sm : TMap (Option Sparse.M) := TMap.mk' none
+  dm : TMap (Option Dense.D) := TMap.mk' none
 
 def bytesIO : Api.SymIO Bytes where
   ops := fun codec m len => if codec == 1 || (codec == 2 && m == 8) then Bytes.ops8 len
@@ -46,6 +49,176 @@ def parseApi (ws : List String) : Option Api.Op :=
   | ["sources", s] => do some (.sources (← n? s))
   | ["matrix", s] => do some (.matrix (← n? s))
   | ["cwdump", s] => do some (.cwdump (← n? s))
+  | _ => none
+
+
+def natListOf (s : String) : Option (List Nat) :=
+  if s == "-" then some [] else (s.splitOn ",").mapM String.toNat?
+
+def hexByte (a b : Char) : UInt8 :=
+  let v := fun (c : Char) => if c.toNat ≤ 57 then c.toNat - 48 else (c.toNat ||| 32) - 97 + 10
+  (v a * 16 + v b).toUInt8
+
+def hexBytes (s : String) : Bytes :=
+  let rec go : List Char → Bytes → Bytes
+    | a :: b :: t, acc => go t (acc.push (hexByte a b))
+    | _, acc => acc
+  go s.toList #[]
+
+/-- matrix-module and solver lines of harness/matdrv.c -/
+def matStep (st : DrvState) (ws : List String) : Option (DrvState × String) :=
+  let n? := fun (s : String) => s.toNat?
+  let noM := "bad-op no matrix"
+  match ws with
+  | ["salloc", i, nr, nc] => do
+      let i ← n? i; let nr ← n? nr; let nc ← n? nc
+      if i ≥ 8 then some (st, "bad-op") else
+      if (st.sm.get i).isSome then some (st, "bad-op") else
+      match Sparse.alloc nr nc with
+      | some m => some ({ st with sm := st.sm.set i (some m) }, "ok m")
+      | none => some (st, "ok null")
+  | ["dalloc", i, nr, nc] => do
+      let i ← n? i; let nr ← n? nr; let nc ← n? nc
+      if i ≥ 8 then some (st, "bad-op") else
+      if (st.dm.get i).isSome then some (st, "bad-op") else
+      match Dense.alloc nr nc with
+      | some m => some ({ st with dm := st.dm.set i (some m) }, "ok m")
+      | none => some (st, "ok null")
+  | ["sfree", i] => do
+      let i ← n? i
+      match st.sm.get i with
+      | some _ => some ({ st with sm := st.sm.set i none }, "ok")
+      | none => some (st, noM)
+  | ["dfree", i] => do
+      let i ← n? i
+      match st.dm.get i with
+      | some _ => some ({ st with dm := st.dm.set i none }, "ok")
+      | none => some (st, noM)
+  | ["sins", i, r, c] => do
+      let i ← n? i; let r ← n? r; let c ← n? c
+      match st.sm.get i with
+      | none => some (st, noM)
+      | some m =>
+        match Sparse.insert m r c with
+        | (_, none) => some (st, "ok null")
+        | (m', some new) => some ({ st with sm := st.sm.set i (some m') }, s!"ok new={if new then 1 else 0} at={r},{c} same=1")
+  | ["sfind", i, r, c] => do
+      let i ← n? i; let r ← n? r; let c ← n? c
+      match st.sm.get i with
+      | none => some (st, noM)
+      | some m => some (st, s!"ok f={if Sparse.find m r c then 1 else 0}")
+  | ["sdel", i, r, c] => do
+      let i ← n? i; let r ← n? r; let c ← n? c
+      match st.sm.get i with
+      | none => some (st, noM)
+      | some m => let (m', d) := Sparse.delete m r c
+                  some ({ st with sm := st.sm.set i (some m') }, s!"ok d={if d then 1 else 0}")
+  | ["sclear", i] => do
+      let i ← n? i
+      match st.sm.get i with
+      | none => some (st, noM)
+      | some m => some ({ st with sm := st.sm.set i (some (Sparse.clear m)) }, "ok")
+  | ["sdump", i] => do
+      let i ← n? i
+      match st.sm.get i with
+      | none => some (st, noM)
+      | some m => some (st, Sparse.dump m)
+  | ["scopy", a, b] => do
+      let a ← n? a; let b ← n? b
+      match st.sm.get a, (if b < 8 then st.sm.get b else none) with
+      | none, _ => some (st, noM)
+      | some _, none => some (st, "bad-op")
+      | some m, some r => some ({ st with sm := st.sm.set b (some (Sparse.copy m r)) }, "ok")
+  | [op, a, b, l] =>
+      if op == "scopyrows" || op == "scopycols" then do
+        let a ← n? a; let b ← n? b; let l ← natListOf l
+        match st.sm.get a, (if b < 8 then st.sm.get b else none) with
+        | none, _ => some (st, noM)
+        | some _, none => some (st, "bad-op")
+        | some m, some r =>
+          if l.length != (if op == "scopyrows" then r.nr else r.nc) then some (st, "bad-op list length") else
+          let r' := if op == "scopyrows" then Sparse.copyrows m r l else Sparse.copycols m r l
+          some ({ st with sm := st.sm.set b (some r') }, "ok")
+      else if op == "dcopyrows" || op == "dcopycols" then do
+        let a ← n? a; let b ← n? b; let l ← natListOf l
+        match st.dm.get a, (if b < 8 then st.dm.get b else none) with
+        | none, _ => some (st, noM)
+        | some _, none => some (st, "bad-op")
+        | some m, some r =>
+          if l.length != (if op == "dcopyrows" then r.nr else r.nc) then some (st, "bad-op list length") else
+          let r' := if op == "dcopyrows" then Dense.copyrows m r l else Dense.copycols m r l
+          some ({ st with dm := st.dm.set b (some r') }, "ok")
+      else if op == "dget" then do
+        let a ← n? a; let r ← n? b; let c ← n? l
+        match st.dm.get a with
+        | none => some (st, noM)
+        | some m => if r ≥ m.nr || c ≥ m.nc then some (st, "bad-op") else some (st, s!"ok v={Dense.get m r c}")
+      else if op == "dflip" then do
+        let a ← n? a; let r ← n? b; let c ← n? l
+        match st.dm.get a with
+        | none => some (st, noM)
+        | some m => match Dense.flip m r c with
+          | (_, none) => some (st, "ok r=-1")
+          | (m', some v) => some ({ st with dm := st.dm.set a (some m') }, s!"ok r={v}")
+      else if op == "dxor" then do
+        let a ← n? a; let f ← n? b; let t ← n? l
+        match st.dm.get a with
+        | none => some (st, noM)
+        | some m => if f ≥ m.nr || t ≥ m.nr then some (st, "bad-op")
+                    else some ({ st with dm := st.dm.set a (some (Dense.xorRows m f t)) }, "ok")
+      else none
+  | ["scopyfilled", a, b, lr, lc] => do
+      let a ← n? a; let b ← n? b; let lr ← natListOf lr; let lc ← natListOf lc
+      match st.sm.get a, (if b < 8 then st.sm.get b else none) with
+      | none, _ => some (st, noM)
+      | some _, none => some (st, "bad-op")
+      | some m, some r =>
+        if lr.length != m.nr || lc.length != m.nc then some (st, "bad-op list length") else
+        some ({ st with sm := st.sm.set b (some (Sparse.copyFilled m r lr lc)) }, "ok")
+  | ["s2d", a, b] => do
+      let a ← n? a; let b ← n? b
+      match st.sm.get a, (if b < 8 then st.dm.get b else none) with
+      | some m, some r => some ({ st with dm := st.dm.set b (some (Dense.ofSparse m r)) }, "ok")
+      | _, _ => some (st, "bad-op")
+  | ["d2s", a, b] => do
+      let a ← n? a; let b ← n? b
+      match st.dm.get a, (if b < 8 then st.sm.get b else none) with
+      | some m, some r => some ({ st with sm := st.sm.set b (some (Dense.toSparse m r)) }, "ok")
+      | _, _ => some (st, "bad-op")
+  | ["dclear", i] => do
+      let i ← n? i
+      match st.dm.get i with
+      | none => some (st, noM)
+      | some m => some ({ st with dm := st.dm.set i (some (Dense.clear m)) }, "ok")
+  | ["ddump", i] => do
+      let i ← n? i
+      match st.dm.get i with
+      | none => some (st, noM)
+      | some m => some (st, Dense.dump m)
+  | ["dcopy", a, b] => do
+      let a ← n? a; let b ← n? b
+      match st.dm.get a, (if b < 8 then st.dm.get b else none) with
+      | none, _ => some (st, noM)
+      | some _, none => some (st, "bad-op")
+      | some m, some r => some ({ st with dm := st.dm.set b (some (Dense.copy m r)) }, "ok")
+  | ["dset", i, r, c, v] => do
+      let i ← n? i; let r ← n? r; let c ← n? c; let v ← n? v
+      match st.dm.get i with
+      | none => some (st, noM)
+      | some m => let (m', ok) := Dense.set m r c v
+                  some ({ st with dm := st.dm.set i (some m') }, if ok then "ok r=0" else "ok r=-1")
+  | ["solve", p, q, len, rows, rhs] => do
+      let p ← n? p; let q ← n? q; let len ← n? len
+      if p == 0 || q == 0 then some (st, "bad-op") else
+      let rws := (rows.splitOn ";").filter (· != "")
+      let rh := (rhs.splitOn ";").filter (· != "")
+      let O := Bytes.ops2 len
+      let sys : List (Gauss.Row Bytes) := (List.range p).map fun i =>
+        (((rws.getD i "").toList.map (· == '1')) ++ List.replicate (q - (rws.getD i "").length) false |>.take q,
+         let h := rh.getD i "N"; if h == "N" then O.zero else hexBytes h)
+      match Gauss.solve O q sys with
+      | none => some (st, "ok st=FAILURE")
+      | some xs => some (st, "ok st=OK x=" ++ String.join (xs.map fun x => Bytes.toHex x ++ ";"))
   | _ => none
 
 def nat? (s : String) : Option Nat := s.toNat?
@@ -91,7 +264,9 @@ def step (st : DrvState) (line : String) : DrvState × String :=
       | none => (st, "bad-op")
   | ws => match parseApi ws with
     | some op => let (w, o) := Api.step bytesIO st.world op; ({ st with world := w }, o)
-    | none => (st, "bad-op")
+    | none => match matStep st ws with
+      | some r => r
+      | none => (st, "bad-op")
 
 partial def loop (h : IO.FS.Stream) (out : IO.FS.Stream) (st : DrvState) : IO Unit := do
   let line ← h.getLine
